@@ -47,8 +47,9 @@ class Mutex {
             if (hold_token_.equal(sch_.getToken())) //! 如果就是自己占用的，就直接返回
                 return true;
 
-            wait_tokens_.push(sch_.getToken());
             do {
+                //! register before every wait: unlock() takes the tokens out when it wakes us
+                wait_tokens_.push(sch_.getToken());
                 sch_.wait();
                 if (sch_.isCanceled())
                     return false;
@@ -67,7 +68,8 @@ class Mutex {
 
         hold_token_.reset();
 
-        if (!wait_tokens_.empty()) {
+        //! wake every waiter; the ones that find the mutex taken again register again
+        while (!wait_tokens_.empty()) {
             auto t = wait_tokens_.front();
             wait_tokens_.pop();
             sch_.resume(t);
